@@ -1,0 +1,25 @@
+//go:build verif
+
+package evaluator
+
+import "github.com/Syuparn/pangaea/object"
+
+// Evaluation fuel for the verification harness (build tag `verif` only).
+// VerifFuel < 0 means unlimited. When the counter reaches 0 every further Eval
+// returns an ordinary Pangaea error, so generated programs that do not terminate
+// (or recurse without bound) are cut off instead of hanging or overflowing the Go stack.
+var VerifFuel int64 = -1
+
+// VerifOutOfFuelMsg is the message of the error returned when fuel runs out.
+const VerifOutOfFuelMsg = "VERIF: out of fuel"
+
+func verifTick() *object.PanErr {
+	if VerifFuel < 0 {
+		return nil
+	}
+	if VerifFuel == 0 {
+		return object.NewPanErr(VerifOutOfFuelMsg)
+	}
+	VerifFuel--
+	return nil
+}
